@@ -55,7 +55,7 @@ def tyParamL : Ty → List Bytes
       else if (k.isUnit ∧ v.isUnit) ∧ (lo = 0 ∧ hi = 0) then [intKey 0, intKey 0]
       else tyKey k :: tyKey v :: (if lo = 0 ∧ hi = maxInt then [] else sizeParamL lo hi)
   | .like b n => if b.isAny ∧ n.isEmpty then [] else [tyKey b, strMark ++ n]
-  | .callable h ts => [if h then tupKeyOf ts else undefKey, undefKey, undefKey]
+  | .callable h ts hr r hb b => [if h then tupKeyOf ts else undefKey, if hr then tyKey r else undefKey, if hb then tyKey b else undefKey]
   | .struct _ => []      -- (a Struct's parameter is not a list of framed keys: `structTail`)
   | .runtime rt n p =>
       if (rt.isEmpty ∧ n.isEmpty) ∧ p.isNone then []
@@ -147,7 +147,7 @@ theorem tyKey_shape (t : Ty) (hs : t.isStruct = false := by rfl) :
   | like b n =>
     simp only [tyKey, tyParamL, Ty.name, ekStr]
     split <;> simp [flat]
-  | callable h ts => cases h <;> simp [tyKey, tyParamL, Ty.name, ekStr, flat, tupKeyOf]
+  | callable h ts hr r hb b => cases h <;> cases hr <;> cases hb <;> simp [tyKey, tyParamL, Ty.name, ekStr, flat, tupKeyOf]
   | runtime rt n p =>
     simp only [tyKey, tyParamL, Ty.name, ekStr]
     split
@@ -166,7 +166,7 @@ def nameTag : Ty → NameTag
   | .arr _ _ _ => .arr | .var _ => .var | .tup _ _ => .tup | .opt _ => .opt | .typ _ => .typ
   | .nul k => .nul k | .bool _ => .bool | .coll _ _ => .coll | .un k _ => .un k
   | .strSize _ _ => .str | .strVal _ => .str | .rx _ => .rx | .pattern _ => .pattern | .tref _ => .tref
-  | .semverT _ _ => .semver | .hash _ _ _ _ => .hash | .like _ _ => .like | .callable _ _ => .callable | .runtime _ _ _ => .runtime
+  | .semverT _ _ => .semver | .hash _ _ _ _ => .hash | .like _ _ => .like | .callable _ _ _ _ _ _ => .callable | .runtime _ _ _ => .runtime
   | .struct _ => .struct
 
 def tagName : NameTag → Bytes
@@ -175,7 +175,7 @@ def tagName : NameTag → Bytes
   | .opt => (Ty.opt .any).name | .typ => (Ty.typ .any).name | .nul k => (Ty.nul k).name | .bool => (Ty.bool none).name
   | .coll => (Ty.coll 0 0).name | .un k => (Ty.un k .any).name | .rx => (Ty.rx []).name | .pattern => (Ty.pattern []).name
   | .tref => (Ty.tref []).name | .semver => (Ty.semverT [] []).name
-  | .hash => (Ty.hash .any .any 0 0).name | .like => (Ty.like .any []).name | .callable => (Ty.callable false []).name
+  | .hash => (Ty.hash .any .any 0 0).name | .like => (Ty.like .any []).name | .callable => (Ty.callable false [] false .any false .any).name
   | .runtime => (Ty.runtime [] [] none).name | .struct => (Ty.struct []).name
 
 theorem name_tag (t : Ty) : t.name = tagName (nameTag t) := by
@@ -746,6 +746,16 @@ theorem tyKeyS_step {n n' : Bytes} {o o' : Bool} {v v' : Ty} {es fs : List (Byte
   · rintro ⟨⟨⟨rfl, rfl⟩, hv⟩, hs⟩
     rw [tyEq_acceptsUndef _ v v' (Nat.le_refl _) hv, ihv.mpr hv, ihs.mpr hs]
 
+/-- one of the three parts of a Callable key: a type key, or undef for an absent part -/
+theorem optPart_iff {x y : Bool} {k1 k2 : Bytes} {P : Prop} (h1 : undefKey ≠ k1) (h2 : undefKey ≠ k2)
+    (hk : x = true → y = true → (k1 = k2 ↔ P)) :
+    ((if x then k1 else undefKey) = (if y then k2 else undefKey)) ↔ (x = y ∧ (x = false ∨ P)) := by
+  cases x <;> cases y
+  · simp
+  · simp [h2]
+  · simp [Ne.symm h1]
+  · simp [hk rfl rfl]
+
 mutual
 theorem tyKey_iff : ∀ a b : Ty, TyWF a = true → TyWF b = true → (tyKey a = tyKey b ↔ tyEq a b = true)
   | .any, b, _, _ => by rw [tyKey_eq_iff _ _ (by rfl), name_eq_iff]; cases b <;> simp [nameTag, tyEq, tyParamL]
@@ -962,23 +972,23 @@ theorem tyKey_iff : ∀ a b : Ty, TyWF a = true → TyWF b = true → (tyKey a =
         simp only [nameTag, true_and, tyEq, Bool.and_eq_true, beq_iff_eq]
         exact likeParam_iff (tyKey_iff t t' ha hb)
       | _ => simp [nameTag, tyEq]
-  | .callable h ts, b, ha, hb => by
+  | .callable h ts hr r hb bl, b, ha, hb' => by
       rw [tyKey_eq_iff _ _ (by rfl), name_eq_iff]
       cases b with
-      | callable h' us =>
-        cases h with
-        | false =>
-          cases h' with
-          | false => simp [nameTag, tyEq, tyParamL]
-          | true => simp [nameTag, tyEq, tyParamL, tupKeyOf_eq, undefKey_ne_tyKey]
-        | true =>
-          cases h' with
-          | false => simp [nameTag, tyEq, tyParamL, tupKeyOf_eq, (undefKey_ne_tyKey _).symm]
-          | true =>
-            simp only [TyWF, Bool.not_true, Bool.false_or, Bool.and_eq_true, decide_eq_true_eq] at ha hb
-            simp only [nameTag, tyEq, tyParamL, true_and, List.cons.injEq, and_true, Bool.and_eq_true, beq_iff_eq, if_true,
-              beq_self_eq_true, Bool.not_true, Bool.false_or]
-            exact tupKeyOf_iff ha.2 hb.2 (tyKey_iff_L ts us ha.1 hb.1)
+      | callable h' us hr' r' hb2 bl' =>
+        simp only [TyWF, Bool.and_eq_true, Bool.or_eq_true, Bool.not_eq_true', decide_eq_true_eq] at ha hb'
+        simp only [nameTag, tyParamL, tyEq, true_and, List.cons.injEq, and_true, Bool.and_eq_true, beq_iff_eq, Bool.or_eq_true,
+          Bool.not_eq_true']
+        have t1 : ∀ xs : List Ty, undefKey ≠ tupKeyOf xs := fun xs => by rw [tupKeyOf_eq]; exact undefKey_ne_tyKey _
+        rw [optPart_iff (P := ts.length = us.length ∧ tyEqL ts us = true) (t1 ts) (t1 us)
+              (fun hx hy => by
+                have a1 := ha.1.resolve_left (by simp [hx])
+                have b1 := hb'.1.resolve_left (by simp [hy])
+                exact tupKeyOf_iff a1.2 b1.2 (tyKey_iff_L ts us a1.1 b1.1)),
+            optPart_iff (P := tyEq r r' = true) (undefKey_ne_tyKey r) (undefKey_ne_tyKey r')
+              (fun hx hy => tyKey_iff r r' (ha.2.1.resolve_left (by simp [hx])) (hb'.2.1.resolve_left (by simp [hy]))),
+            optPart_iff (P := tyEq bl bl' = true) (undefKey_ne_tyKey bl) (undefKey_ne_tyKey bl')
+              (fun hx hy => tyKey_iff bl bl' (ha.2.2.resolve_left (by simp [hx])) (hb'.2.2.resolve_left (by simp [hy])))]
       | _ => simp [nameTag, tyEq]
   | .runtime rt n p, b, _, _ => by
       rw [tyKey_eq_iff _ _ (by rfl), name_eq_iff]
